@@ -115,9 +115,15 @@ func genBatch(r *rand.Rand, dir string, idx int) batchSpec {
 			fmt.Fprintf(&sb, "[exec:vhelper] exec vhelper touch made-%s\n[!exec:definitely-not-there] mkdir d-%s\n", tok, tok)
 		}
 		addMark()
-		jobs := r.Intn(3)
+		jobs := r.Intn(4)
 		if sp.Ending == "fail-wait" {
 			jobs = 0 // a plain wait would block on them: this ending starts its own jobs
+		}
+		// a named job that ends by itself, started before the others and waited for by name while they are
+		// still running: the others stay this run's to stop and reap
+		namedFirst := jobs > 0 && r.Intn(2) == 0
+		if namedFirst {
+			fmt.Fprintf(&sb, "exec vhelper exit 0 first-%s &first&\n", tok)
 		}
 		for j := 0; j < jobs; j++ {
 			pf := filepath.Join(spec.PidDir, fmt.Sprintf("%s-%d", tok, j))
@@ -127,6 +133,9 @@ func genBatch(r *rand.Rand, dir string, idx int) batchSpec {
 			} else {
 				fmt.Fprintf(&sb, "! exec vhelper block %s &\n", pf)
 			}
+		}
+		if namedFirst {
+			sb.WriteString("wait first\n")
 		}
 		sp.Jobs = jobs
 		sb.WriteString("rendezvous\ncheckown\n")
